@@ -301,6 +301,20 @@ theorem unstorable_key_witness :
     (exec { fixedCfgBase with handlers := [setUnvalidated] } setUnvalidated { entries := [{ keyBad := true }] }).out
       = .engineHazard "badkey" := by decide
 
+def lockDetached : Handler :=
+  { name := "Lock", defers := [.deferRecover],
+    main := [.guard (.atom .lockKeyEmpty) (.reject .invalidArgument "Lock_key_cannot_be_empty"), .need .lockHeld "ctxignored", .body] }
+
+/-- `Lock` on a key another caller holds, while the handler hands the locker a context detached from its caller's
+    (`context.WithoutCancel(ctx)`): the wait cannot be ended by the caller — the handler is not back when the client's
+    deadline has passed, its goroutine stays queued, and the lock it is granted later belongs to nobody until its TTL. -/
+theorem lock_ignores_context_witness :
+    (exec { fixedCfgBase with handlers := [lockDetached] } lockDetached { top := { lockHeld := true } }).out
+      = .engineHazard "ctxignored" := by decide
+
+/-- nothing else about `Lock` is affected: on a free key the same handler answers -/
+example : (exec { fixedCfgBase with handlers := [lockDetached] } lockDetached { top := {} }).out = .response := by decide
+
 /-- with the existence check in place the same reader passes the checker (non-vacuity of the `need` rule) -/
 example : checkH { fixedCfgBase with handlers := [] } []
     { sizeUnchecked with main := [.checkName .yes .propagate, .need .notExist "missingswamp", .body] } = true := by decide
